@@ -102,6 +102,7 @@ static int selecttimeout;		/* RFC says timeout minimum 5sec */
 static int lazymode;
 static long send_ping_soon;
 static time_t lastdownstreamtime;
+static time_t lastpingtime;		/* when we last sent a ping */
 static long send_query_sendcnt = -1;
 static long send_query_recvcnt = 0;
 static int hostname_maxlen = 0xFF;
@@ -392,6 +393,8 @@ send_chunk(int fd)
 static void
 send_ping(int fd)
 {
+	lastpingtime = time(NULL);
+
 	if (conn == CONN_DNS_NULL) {
 		char data[4];
 
@@ -1175,6 +1178,18 @@ client_tunnel(int tun_fd, int dns_fd)
 
 		if (i < 0)
 			err(1, "select");
+
+		if (i > 0 && conn == CONN_RAW_UDP &&
+		    lastpingtime + selecttimeout <= time(NULL)) {
+			/* In raw mode the ping below is only sent after
+			   selecttimeout seconds of silence on both tun and
+			   socket. Steady one-way traffic restarts the select
+			   timeout every time, and neither the server (which
+			   only hears from us) nor we (who need downstream
+			   data or a ping reply) would see a sign of life
+			   within 60 seconds. */
+			send_ping(dns_fd);
+		}
 
 		if (i > 0 && is_sending() && outchunktime + 1 < time(NULL)) {
 			/* Packets arriving on tun (dropped while re-sending)
@@ -2435,7 +2450,9 @@ client_handshake(int dns_fd, int raw_mode, int autodetect_frag_size, int fragsiz
 
 	if (raw_mode && handshake_raw_udp(dns_fd, seed)) {
 		conn = CONN_RAW_UDP;
-		selecttimeout = 20;
+		/* keepalive; three in a row may be lost before the
+		   60 second timeouts on either side strike */
+		selecttimeout = 15;
 	} else {
 		if (raw_mode == 0) {
 			fprintf(stderr, "Skipping raw mode\n");
